@@ -15,6 +15,13 @@ claim("C19",
       "Trusted: Coq kernel + vm_compute; sort.Slice/SliceStable are a correct (un)stable sort; the correspondence is exhaustive only up to the stated length.",
       "Coq proof (Permutation/StronglySorted) + model/implementation correspondence", "DESIGN.md §5 C19")
 
+claim("C17",
+      "Coq theorems: the modelled commonPrefix returns, for every non-empty list of absolute cleaned directories, the rendering of the deepest element-wise common ancestor "
+      "(ancestor of each, deepest, depends only on the set); the match-back loop returns one listing package per file in order; neither can crash. "
+      "Tied to /repo by the VerifCommonPrefix hook on thousands of path sets and by analysis.LoadSources on real module layouts (incl. error cases).",
+      "Trusted: strings.Split/Join as modelled; packages.Load, os.Stat and the file system are environment (observed by the oracle, not proved); 'existing directory' follows from 'ancestor of an existing directory'.",
+      "Coq proof (split/join round trip, list lcp) + hook/LoadSources correspondence + file-system oracle", "DESIGN.md §5 C17")
+
 NOT_YET = "check not built yet in this round (planned, see DESIGN.md §6)"
 
 checks, na = [], []
